@@ -253,4 +253,94 @@ def fromScalars (zero : α) (args : List (Q α)) (classes : List Cls) (recursive
       pure (k, d)
     pure ⟨b, ds⟩
 
+/-! ### class conversions that leave the values where they are
+    (scalar.py:69-90 as_scalar, boolean.py:45-58 as_int, vector.py:43-92 as_vector, vector3.py:31-53 as_vector3,
+     pair.py:32-62 as_pair, matrix.py:35-54 as_matrix; /repo main incl. the repair that hands the operand's
+     derivatives to the constructor) -/
+
+def _root_.PMV.Shaper.Cls.isVector : Cls → Bool
+  | .vector | .vector3 | .pair | .quaternion => true
+  | _ => false
+
+def wod (q : Q α) : Q α := ⟨q.base, []⟩
+
+/-- `Cls(arg, derivs=arg._derivs_)` with a Qube `arg` (qube.py:285-306, 330-408): the numerator rank is the
+    operand's, EXCEPT that `nrank = nrank or self.NRANK or 0` turns an operand rank of 0 into the class rank;
+    denominators are the operand's; the derivatives are inserted into the new object -/
+def ctorFromQube (cls : Cls) (q : Q α) : Except Err (Q α) := do
+  let nr := if q.base.numer.length ≠ 0 then q.base.numer.length else cls.nrank.getD 0
+  let b ← construct cls q.base.vals q.base.mask nr q.base.denom.length
+  let ds ← mapDerivs b q.derivs pure
+  pure ⟨b, ds⟩
+
+/-- `Cls(arg._values_, arg._mask_, derivs=arg._derivs_, example=arg)` for a class with a fixed NRANK:
+    the raw values array is read with the class's numerator rank and the operand's denominator rank -/
+def ctorFromArrays (cls : Cls) (q : Q α) : Except Err (Q α) := do
+  let b ← construct cls q.base.vals q.base.mask (cls.nrank.getD q.base.numer.length) q.base.denom.length
+  let ds ← mapDerivs b q.derivs pure
+  pure ⟨b, ds⟩
+
+def keepOrWod (recursive : Bool) (q : Q α) : Q α := if recursive then q else wod q
+
+/-- `Scalar.as_scalar` -/
+def asScalar (q : Q α) (recursive : Bool) : Except Err (Q α) :=
+  if q.base.cls = .boolean then
+    -- `arg.as_int()`: a Scalar of the 0/1 values with the same mask
+    (construct .scalar q.base.vals q.base.mask 0 0).map fun b => ⟨b, []⟩
+  else if q.base.cls = .scalar then .ok (keepOrWod recursive q)
+  else (ctorFromQube .scalar q).map (keepOrWod recursive)
+
+/-- the `nrank == 0` branch of `as_vector`: values reshaped to `shape + (1,) + item`, `Vector(..., nrank=1)` -/
+def scalarToVector0 (q : Q0 α) : Except Err (Q0 α) := do
+  let nv ← NpShape.reshape q.vals (ofNats q.shape ++ [1] ++ ofNats q.item)
+  construct .vector nv q.mask 1 q.denom.length
+
+/-- `Vector.as_vector` -/
+def asVector (q : Q α) (recursive : Bool) : Except Err (Q α) :=
+  if q.base.cls.isVector then .ok (keepOrWod recursive q)
+  else if q.base.numer.length = 1 then flattenNumer q [.vector] recursive
+  else if q.base.numer.length = 2 ∧ (q.base.numer.headD 0 = 1 ∨ q.base.numer.getD 1 0 = 1) then
+    flattenNumer q [.vector] recursive
+  else if q.base.numer.length = 0 then do
+    let b ← scalarToVector0 q.base
+    -- `result.insert_deriv(key, Vector.as_vector(value, False))`
+    let ds ← if recursive then mapDerivs b q.derivs scalarToVector0 else pure []
+    pure ⟨b, ds⟩
+  else if q.base.numer.length + q.base.denom.length > 1 then splitItems q 1 [.vector]
+  else (ctorFromQube .vector q).map (keepOrWod recursive)
+
+/-- `arg._numer_[0]` -/
+def numer0 (q : Q α) : Except Err Nat :=
+  match q.base.numer with
+  | [] => .error .index
+  | n :: _ => .ok n
+
+/-- `Vector3.as_vector3` -/
+def asVector3 (q : Q α) (recursive : Bool) : Except Err (Q α) :=
+  if q.base.cls = .vector3 then .ok (keepOrWod recursive q)
+  else if q.base.numer = [1, 3] ∨ q.base.numer = [3, 1] then flattenNumer q [.vector3] recursive
+  else do
+    let q ← if q.base.numer.length + q.base.denom.length > 1 then do
+        let n0 ← numer0 q
+        if n0 = 3 then splitItems q 1 [.vector3] else pure q
+      else pure q
+    (ctorFromQube .vector3 q).map (keepOrWod recursive)
+
+/-- `Pair.as_pair` -/
+def asPair (q : Q α) (recursive : Bool) : Except Err (Q α) :=
+  if q.base.cls = .pair then .ok (keepOrWod recursive q)
+  else if q.base.numer = [1, 2] ∨ q.base.numer = [2, 1] then flattenNumer q [.pair] recursive
+  else do
+    let q ← if q.base.numer.length + q.base.denom.length > 1 then do
+        let n0 ← numer0 q
+        if n0 = 2 then splitItems q 1 [.pair] else pure q
+      else pure q
+    (ctorFromArrays .pair q).map (keepOrWod recursive)
+
+/-- `Matrix.as_matrix` -/
+def asMatrix (q : Q α) (recursive : Bool) : Except Err (Q α) :=
+  if q.base.cls = .matrix then .ok (keepOrWod recursive q)
+  else if q.base.cls.isVector ∧ q.base.denom.length = 1 then joinItems q [.matrix]
+  else (ctorFromArrays .matrix q).map (keepOrWod recursive)
+
 end PMV.ItemOps
